@@ -469,6 +469,15 @@ func (h *Handler) isAllowed(ip net.IP) bool {
 func (h *Handler) AddAllowedRoute(network *net.IPNet) {
 	h.routesMu.Lock()
 	defer h.routesMu.Unlock()
+	// Adding a network that is already allowed (e.g. a dynamic route updated
+	// with a new metric) must not create a second entry: a single removal
+	// would then leave the network permitted.
+	target := network.String()
+	for _, route := range h.cfg.AllowedRoutes {
+		if route.String() == target {
+			return
+		}
+	}
 	h.cfg.AllowedRoutes = append(h.cfg.AllowedRoutes, network)
 }
 
